@@ -266,7 +266,7 @@ fn run_one(c: &mut Case) {
 }
 
 pub fn run(ctx: &Ctx, evidence: Option<&PathBuf>) -> i32 {
-    ctx.run_fixed("directed", 400, run_one);
+    ctx.run_fixed("directed", ctx.dn(400), run_one);
     let n = ctx.size(20_000, 2_000_000);
     ctx.run_cases("closed-loop", n, run_one);
     ctx.gate("connections_completed", 200);
